@@ -57,6 +57,9 @@ func main() {
 			case "-dump":
 				dump = os.Args[i+1]
 				i++
+			case "-t":
+				fmt.Sscanf(os.Args[i+1], "%d", &vfTimeout)
+				i++
 			default:
 				keys = append(keys, os.Args[i])
 			}
@@ -115,6 +118,8 @@ func main() {
 	}
 }
 
+var vfTimeout = 10
+
 func vfOne(e *Engine, key string, verbose bool, dump string) int {
 	t0 := time.Now()
 	res, err := e.verifyFunction(key)
@@ -122,8 +127,7 @@ func vfOne(e *Engine, key string, verbose bool, dump string) int {
 		fmt.Println("ERROR", key, err)
 		return 1
 	}
-	timeout := 10
-	results := dischargeAll(res.Obls, timeout)
+	results := dischargeAll(res.Obls, vfTimeout)
 	bad := 0
 	for _, o := range res.Obls {
 		r := results[o]
